@@ -1106,7 +1106,7 @@ func runC14(c *Ctx) {
 	for _, d := range grid5b {
 		emitDeriv(d, "derivation-grid")
 	}
-	nder := 150
+	nder := 100
 	if c.Thorough() {
 		nder = 3000
 	}
